@@ -117,6 +117,32 @@ def _roundtrips(rec, net, tag, g, n, A, w, attrs, formats):
                       attrs, tol=0.0 if fmt == "pickle" else TEXT_TOL)
 
 
+def _with_stored_zeros(A, fmt):
+    """The same 0/1 matrix, but with explicitly stored zeros on the diagonal
+    and on every third non-link position."""
+    import scipy.sparse as sp
+    n = len(A)
+    rows, cols, data = [], [], []
+    k = 0
+    for i in range(n):
+        for j in range(n):
+            if A[i, j]:
+                rows.append(i); cols.append(j); data.append(1)
+            else:
+                k += 1
+                if i == j or k % 3 == 0:
+                    rows.append(i); cols.append(j); data.append(0)
+    M = sp.coo_matrix((np.array(data, dtype=np.int8),
+                       (np.array(rows, dtype=int), np.array(cols, dtype=int))),
+                      shape=(n, n))
+    if fmt == "coo":
+        return M
+    M = M.tocsr() if fmt == "csr" else M.tocsc()
+    # tocsr()/tocsc() keep explicit zeros; make sure they are really stored
+    assert M.nnz >= int(A.sum())
+    return M
+
+
 def _set_attrs(net, attrs):
     for name, Wm in attrs.items():
         net.set_link_attribute(name, Wm)
@@ -152,6 +178,11 @@ def oracle(case, rec):
         ("sparse_csr", lambda: mk(sp.csr_matrix(A))),
         ("sparse_coo", lambda: mk(sp.coo_matrix(A))),
         ("sparse_lil", lambda: mk(sp.lil_matrix(A))),
+        # sparse matrices may STORE zeros explicitly (after setdiag(0) or
+        # S[i, j] = 0): such entries are not links
+        ("sparse_csr_stored_zeros", lambda: mk(_with_stored_zeros(A, "csr"))),
+        ("sparse_csc_stored_zeros", lambda: mk(_with_stored_zeros(A, "csc"))),
+        ("sparse_coo_stored_zeros", lambda: mk(_with_stored_zeros(A, "coo"))),
         ("edge_list", lambda: _set_attrs(
             Network(edge_list=[list(e) for e in g["edges"]], n_nodes=n,
                     directed=directed, node_weights=ww, silence_level=3),
